@@ -125,6 +125,19 @@ func (x *Exec) pf(bs []*Term) *Term {
 			bs = bs[:n-2]
 		}
 	}
+	// decimal notation fact: the exponent marker is case-insensitive ("1E+06" denotes what "1e+06" denotes)
+	norm := make([]*Term, len(bs))
+	for i, b := range bs {
+		if b.op == OConst {
+			if b.u == 'E' {
+				b = x.tb.bytes['e']
+			}
+		} else if lo, hi, _ := x.tb.urange(b); lo <= 'E' && 'E' <= hi {
+			b = x.tb.Ite(x.tb.Eq(b, x.tb.bytes['E']), x.tb.bytes['e'], b)
+		}
+		norm[i] = b
+	}
+	bs = norm
 	// pack bytes into one bit-vector argument
 	var arg *Term
 	for _, b := range bs {
